@@ -72,6 +72,8 @@ def _calls():
         "rel-base-2010": lambda: P("in 2 days", languages=["en"], settings={"RELATIVE_BASE": datetime(2010, 6, 1, 8, 0)}),
         "default-tz-en": lambda: P("March 3, 2011 10:00 EST"),
         "default-es": lambda: P("12 abril 2014"),
+        "default-fr-tz": lambda: P("10 janvier 2020 10:00 PST"),
+        "default-fr": lambda: P("12 mars 2021"),
         "fr-S-other": lambda: P("03/04/2016", languages=["fr"], settings=dict(S)),
         "search-fr": lambda: search_dates("le 2 mars 2015 et hier", languages=["fr"]),
         "search-de": lambda: search_dates("am 3. April 2016 und gestern", languages=["de"]),
@@ -101,10 +103,11 @@ PAIRS = [
     ("search-fr-vs-search-de", "search-fr", "search-de"),
     ("search-vs-default-fr-parse", "search-en", "fr-default"),
     ("equal-settings-that-matter", "order-DMY", "order-DMY-other"),
+    ("default-parser-two-strings-not-in-the-first-language", "default-fr-tz", "default-fr"),
 ]
 QUICK_WARM = ["same-config-same-language", "same-call-twice", "settings-differ-irrelevant-field", "shared-settings-dict-fr-vs-en",
               "skip-tokens-differ", "parse-vs-search", "relative-base-differs", "default-parser-tz-string-vs-other-language",
-              "same-config-fr-custom-settings"]
+              "same-config-fr-custom-settings", "default-parser-two-strings-not-in-the-first-language"]
 QUICK_WARM_REV = ["relative-base-differs", "same-config-same-language", "settings-differ-irrelevant-field"]
 QUICK_COLD = ["shared-settings-dict-fr-vs-en", "relative-base-differs", "equal-settings-that-matter"]
 THOROUGH_COLD_ALL = ["shared-settings-dict-fr-vs-en", "same-config-same-language", "skip-tokens-differ"]
